@@ -215,6 +215,103 @@ Proof.
     + change (x3 :: r3' ++ y) with ((x3 :: r3') ++ y). set (r4 := x3 :: r3') in *. fin_tail y r4 I3.
 Qed.
 
+(* the same with a carriage return ahead *)
+Lemma digs_app_cr (y:bytes) base : base <= 99 -> forall (q:bytes) acc n, In 13%N q -> digs base (q ++ y) acc n = digs base q acc n.
+Proof.
+  intros Hb q. induction q as [|x q IH]; intros acc n Hin; [destruct Hin|]. cbn [app digs].
+  destruct (N.eq_dec x 13) as [->|Hx].
+  - change (digval 13) with 99. destruct (Z.ltb_spec 99 base); [lia|reflexivity].
+  - destruct (digval x <? base); [|reflexivity]. apply IH. destruct Hin; [congruence|assumption].
+Qed.
+Lemma strto_app_cr (y:bytes) (c:N) (l':bytes) base : base <= 99 -> isspace c = false -> In 13%N (c :: l') ->
+  strto ((c :: l') ++ y) base = strto (c :: l') base.
+Proof.
+  intros Hb Hc Hin. unfold strto. cbn [app skipsp]. rewrite Hc. cbn [hd].
+  assert (Hc10 : c <> 13%N) by (intros ->; discriminate Hc).
+  assert (Hin' : In 13%N l') by (destruct Hin; [congruence|assumption]).
+  set (sgn := (c =? 45)%N || (c =? 43)%N).
+  assert (G : forall q, In 13%N q ->
+    (let pfx := (base =? 16) && (hd 0%N (q ++ y) =? 48)%N && ((hd 0%N (tl (q ++ y)) =? 120) || (hd 0%N (tl (q ++ y)) =? 88))%N && (digval (hd 0%N (tl (tl (q ++ y)))) <? 16) in
+     (pfx, digs base (if pfx then tl (tl (q ++ y)) else q ++ y) 0 0)) =
+    (let pfx := (base =? 16) && (hd 0%N q =? 48)%N && ((hd 0%N (tl q) =? 120) || (hd 0%N (tl q) =? 88))%N && (digval (hd 0%N (tl (tl q))) <? 16) in
+     (pfx, digs base (if pfx then tl (tl q) else q) 0 0))).
+  { intros q Hq. cbv zeta. destruct q as [|x1 q1]; [destruct Hq|]. cbn [app hd tl].
+    destruct (base =? 16); cbn [andb]; [|rewrite (digs_app_cr y base Hb (x1 :: q1)) by exact Hq; reflexivity].
+    destruct (N.eqb_spec x1 48) as [->|H1]; cbn [andb]; [|rewrite (digs_app_cr y base Hb (x1 :: q1)) by exact Hq; reflexivity].
+    assert (Hq1 : In 13%N q1) by (destruct Hq; [discriminate|assumption]).
+    destruct q1 as [|x2 q2]; [destruct Hq1|]. cbn [app hd tl].
+    destruct ((x2 =? 120) || (x2 =? 88))%N eqn:E2; cbn [andb]; [|rewrite (digs_app_cr y base Hb (48%N :: x2 :: q2)) by exact Hq; reflexivity].
+    assert (Hq2 : In 13%N q2).
+    { destruct Hq1 as [->|]; [discriminate E2|assumption]. }
+    destruct q2 as [|x3 q3]; [destruct Hq2|]. cbn [app hd tl].
+    destruct (digval x3 <? 16).
+    - rewrite (digs_app_cr y base Hb (x3 :: q3)) by exact Hq2. reflexivity.
+    - rewrite (digs_app_cr y base Hb (48%N :: x2 :: x3 :: q3)) by exact Hq. reflexivity. }
+  destruct sgn.
+  - cbn [tl]. specialize (G l' Hin'). cbv zeta in G. injection G as G1 G2. rewrite G2, G1. reflexivity.
+  - specialize (G (c :: l') Hin). cbv zeta in G. cbn [app hd tl] in G |- *. injection G as G1 G2. rewrite G2, G1. reflexivity.
+Qed.
+
+Lemma nd_digs_app_cr (y:list N) : forall q acc n, In 13%N q ->
+  NumDecode.digs (q ++ y) acc n = (let '(r, a, k) := NumDecode.digs q acc n in (r ++ y, a, k)) /\ In 13%N (fst (fst (NumDecode.digs q acc n))).
+Proof.
+  induction q as [|x q IH]; intros acc n Hin; [destruct Hin|]. cbn [app NumDecode.digs].
+  destruct (N.eq_dec x 13) as [->|Hx].
+  - change (NumDecode.isdig 13) with false. cbn [fst]. split; [reflexivity|left; reflexivity].
+  - destruct (NumDecode.isdig x).
+    + apply IH. destruct Hin; [congruence|assumption].
+    + cbn [fst]. split; [reflexivity|exact Hin].
+Qed.
+
+Ltac fin_tail_cr y r4 I4 :=
+  let x4 := fresh "x4" in let r4' := fresh "r4'" in let Hx4 := fresh "Hx4" in let I5 := fresh "I5" in
+  let x5 := fresh "x5" in let r5' := fresh "r5'" in let Es := fresh "Es" in let I6 := fresh "I6" in let E6 := fresh "E6" in
+  destruct (_ + _ =? 0); [reflexivity|];
+  destruct r4 as [|x4 r4']; [destruct I4|]; cbn [app hd tl];
+  destruct (N.eq_dec x4 13) as [->|Hx4];
+  [ cbn [N.eqb Pos.eqb orb andb];
+    repeat match goal with |- context [NumDecode.digs ?a 0 0] => destruct (NumDecode.digs a 0 0) as [[? ?] ?] end; reflexivity
+  | assert (I5 : In 13%N r4') by (destruct I4; [congruence|assumption]);
+    destruct r4' as [|x5 r5']; [destruct I5|]; cbn [app hd tl];
+    destruct ((x5 =? 45)%N || (x5 =? 43)%N) eqn:Es;
+    [ assert (I6 : In 13%N r5') by (destruct I5 as [I5|I5]; [subst x5; discriminate Es|exact I5]);
+      destruct (nd_digs_app_cr y r5' 0 0 I6) as [E6 _]; rewrite E6; destruct (NumDecode.digs r5' 0 0) as [[? ?] ?]; reflexivity
+    | destruct (nd_digs_app_cr y (x5 :: r5') 0 0 I5) as [E6 _]; cbn [app] in E6; rewrite E6;
+      destruct (NumDecode.digs (x5 :: r5') 0 0) as [[? ?] ?]; reflexivity ] ].
+
+Lemma strtod_exact_app_cr (y:list N) (c:N) (l':list N) : NumDecode.isspace c = false -> In 13%N (c :: l') ->
+  NumDecode.strtod_exact ((c :: l') ++ y) = NumDecode.strtod_exact (c :: l').
+Proof.
+  intros Hc Hin. unfold NumDecode.strtod_exact. cbn [app NumDecode.skipsp]. rewrite Hc. cbn [hd].
+  assert (Hc10 : c <> 13%N) by (intros ->; discriminate Hc).
+  assert (Hin' : In 13%N l') by (destruct Hin; [congruence|assumption]).
+  assert (G : forall q, In 13%N q -> exists r3 ip ni, NumDecode.digs (q ++ y) 0 0 = (r3 ++ y, ip, ni) /\ NumDecode.digs q 0 0 = (r3, ip, ni) /\ In 13%N r3).
+  { intros q Hq. destruct (nd_digs_app_cr y q 0 0 Hq) as [E I]. destruct (NumDecode.digs q 0 0) as [[r3 ip] ni]. exists r3, ip, ni. auto. }
+  destruct ((c =? 45)%N || (c =? 43)%N); cbn [tl].
+  - destruct (G l' Hin') as (r3 & ip & ni & E1 & E2 & I3). rewrite E1, E2.
+    destruct r3 as [|x3 r3']; [destruct I3|]. cbn [app hd tl].
+    destruct (N.eqb_spec x3 46) as [->|H46].
+    + assert (I3' : In 13%N r3') by (destruct I3; [discriminate|assumption]).
+      destruct (nd_digs_app_cr y r3' ip 0 I3') as [E4 I4]. rewrite E4. destruct (NumDecode.digs r3' ip 0) as [[r4 fp] nf]. cbn [fst] in I4.
+      fin_tail_cr y r4 I4.
+    + change (x3 :: r3' ++ y) with ((x3 :: r3') ++ y). set (r4 := x3 :: r3') in *. fin_tail_cr y r4 I3.
+  - destruct (G (c :: l') Hin) as (r3 & ip & ni & E1 & E2 & I3). cbn [app] in E1. rewrite E1, E2.
+    destruct r3 as [|x3 r3']; [destruct I3|]. cbn [app hd tl].
+    destruct (N.eqb_spec x3 46) as [->|H46].
+    + assert (I3' : In 13%N r3') by (destruct I3; [discriminate|assumption]).
+      destruct (nd_digs_app_cr y r3' ip 0 I3') as [E4 I4]. rewrite E4. destruct (NumDecode.digs r3' ip 0) as [[r4 fp] nf]. cbn [fst] in I4.
+      fin_tail_cr y r4 I4.
+    + change (x3 :: r3' ++ y) with ((x3 :: r3') ++ y). set (r4 := x3 :: r3') in *. fin_tail_cr y r4 I3.
+Qed.
+
+(* either line terminator *)
+Lemma strto_app_t (y:bytes) (tl c:N) (l':bytes) base : tl = 10%N \/ tl = 13%N -> base <= 99 -> isspace c = false -> In tl (c :: l') ->
+  strto ((c :: l') ++ y) base = strto (c :: l') base.
+Proof. intros [->| ->]; [apply strto_app|apply strto_app_cr]. Qed.
+Lemma strtod_exact_app_t (y:list N) (tl c:N) (l':list N) : tl = 10%N \/ tl = 13%N -> NumDecode.isspace c = false -> In tl (c :: l') ->
+  NumDecode.strtod_exact ((c :: l') ++ y) = NumDecode.strtod_exact (c :: l').
+Proof. intros [->| ->]; [apply strtod_exact_app|apply strtod_exact_app_cr]. Qed.
+
 (* ---------- header composition and the -113 text on the extended buffer ---------- *)
 Lemma nth_firstn_lt' {A} (d:A) : forall n i (l:list A), (i < n)%nat -> nth i (firstn n l) d = nth i l d.
 Proof. induction n as [|n IH]; intros i l H; [lia|]. destruct l as [|x l]; [destruct i; reflexivity|]. destruct i as [|i]; [reflexivity|]. cbn [firstn nth]. apply IH. lia. Qed.
@@ -284,6 +381,8 @@ Qed.
 Section Local.
 Variable y : bytes.
 Variable L : Z.
+Variable tL : N.                                  (* the terminator at L: a line feed or a carriage return *)
+Hypothesis HtL : tL = 10%N \/ tL = 13%N.
 Definition ext (c:ctx) : ctx := upd_mem c (mem c ++ y).
 Lemma blind_ext f c : blind f -> f (ext c) = ext (f c).
 Proof. intro H. destruct (H c) as [(A1 & _) E]. unfold ext. rewrite E, A1. reflexivity. Qed.
@@ -291,7 +390,7 @@ Lemma SW_ext_eq c c' : SW c c' -> upd_mem c' (mem c ++ y) = ext c'.
 Proof. intros (A1 & _). unfold ext. rewrite A1. reflexivity. Qed.
 
 Definition W (c:ctx) : Prop :=
-  0 <= L < Z.of_nat (length (mem c)) /\ getm (mem c) L = 10%N /\
+  0 <= L < Z.of_nat (length (mem c)) /\ getm (mem c) L = tL /\
   (forall i, 0 <= i < L -> getm (mem c) i <> 10%N /\ getm (mem c) i <> 13%N) /\
   0 <= pd_off c /\ 0 <= pd_len c /\ pd_off c + pd_len c <= L + 1 /\
   0 <= raw_off c /\ 0 <= raw_len c /\ raw_off c + raw_len c <= Z.of_nat (length (mem c)) /\ 0 <= pd_pos c.
@@ -414,7 +513,7 @@ Proof. unfold TokOK, SW. intros (A1 & A2 & A3 & _) H. rewrite A1, A2, A3. exact 
 (* the text a number reader is handed: it starts with a byte that is not white space, and the line feed is ahead *)
 Lemma tok_text c t : W c -> TokOK c t -> LexTok.is_num (LexModel.ty t) = true ->
   0 <= LexModel.ptr t <= Z.of_nat (length (mem c)) /\
-  exists x l', dropm (mem c) (LexModel.ptr t) = x :: l' /\ isspace x = false /\ In 10%N (x :: l').
+  exists x l', dropm (mem c) (LexModel.ptr t) = x :: l' /\ isspace x = false /\ In tL (x :: l').
 Proof.
   intros (W1 & W2 & W3 & W4 & W5 & W6 & _) (T1 & T2 & T3 & T4) Hn. destruct (T4 Hn) as [T5 T6].
   set (p := LexModel.ptr t) in *. split; [lia|].
@@ -436,13 +535,13 @@ Proof.
   destruct (LexTok.is_num (LexModel.ty t)) eqn:En; [|destruct (LexModel.ty t); try reflexivity; discriminate En].
   destruct (tok_text c t HW HT En) as (Hp & x & l' & Ed & Hx & Hin).
   rewrite dropm_app by exact Hp. rewrite Ed.
-  destruct (LexModel.ty t); try reflexivity; rewrite (strto_app y x l') by (try lia; assumption); reflexivity.
+  destruct (LexModel.ty t); try reflexivity; rewrite (strto_app_t y tL x l' _ HtL) by (try lia; assumption); reflexivity.
 Qed.
 Lemma strtod_ext c t : W c -> TokOK c t -> LexTok.is_num (LexModel.ty t) = true ->
   NumDecode.strtod_exact (dropm (mem (ext c)) (LexModel.ptr t)) = NumDecode.strtod_exact (dropm (mem c) (LexModel.ptr t)).
 Proof.
   intros HW HT En. destruct (tok_text c t HW HT En) as (Hp & x & l' & Ed & Hx & Hin).
-  change (mem (ext c)) with (mem c ++ y). rewrite dropm_app by exact Hp. rewrite Ed. apply strtod_exact_app; assumption.
+  change (mem (ext c)) with (mem c ++ y). rewrite dropm_app by exact Hp. rewrite Ed. apply (strtod_exact_app_t y tL); assumption.
 Qed.
 Lemma param_to_double_ext c t : W c -> TokOK c t -> param_to_double_bits (ext c) t = param_to_double_bits c t.
 Proof.
@@ -789,7 +888,7 @@ Qed.
 
 (* ---------- one unit of the message ---------- *)
 Definition Wm (c:ctx) : Prop :=
-  0 <= L < Z.of_nat (length (mem c)) /\ getm (mem c) L = 10%N /\
+  0 <= L < Z.of_nat (length (mem c)) /\ getm (mem c) L = tL /\
   (forall i, 0 <= i < L -> getm (mem c) i <> 10%N /\ getm (mem c) i <> 13%N).
 Definition PrevOK (off:Z) (prev:option (Z*Z)) : Prop :=
   match prev with Some (hp, hl) => 0 <= hp /\ 0 < hl /\ hp + hl <= off | None => True end.
@@ -875,8 +974,8 @@ Proof.
     (* the unit does not start at the line feed *)
     assert (HoffL : off < L).
     { destruct (Z.eq_dec off L) as [->|]; [|lia]. exfalso. assert (len = 1) by lia. subst len.
-      assert (Es : slice (mem c) L 1 = [10%N]) by (rewrite slice_one by lia; rewrite M2; reflexivity).
-      subst h u. rewrite Es in Hhl. vm_compute in Hhl. discriminate. }
+      assert (Es : slice (mem c) L 1 = [tL]) by (rewrite slice_one by lia; rewrite M2; reflexivity).
+      subst h u. rewrite Es in Hhl. destruct HtL as [EtL|EtL]; rewrite EtL in Hhl; vm_compute in Hhl; discriminate. }
     set (cptr := off + LexModel.ptr h) in *. set (clen := LexModel.len h) in *.
     (* composition: the same bytes, y behind them *)
     assert (Hc : exists m1 hp hl, compose (mem c) prev cptr clen = (m1, hp, hl) /\ compose (mem c ++ y) prev cptr clen = (m1 ++ y, hp, hl) /\
